@@ -76,7 +76,11 @@ def showTokens (ts : List Token) : String := " ".intercalate (ts.map showToken)
 def parseRun (run : String) : Option (List (List Byte)) :=
   match words run with
   | [] => none
-  | w :: _ => some ((w.splitOn ",").map unhex)
+  | w :: _ =>
+    -- chunks starting with `@` are output-side operations on the same terminal between deliveries (`@sz.W.H`, `@we`,
+    -- `@mv.X.Y`, `@er`, `@hc`): the decoder lives in its own part of the state, so the model ignores them
+    let cs := (w.splitOn ",").filter fun c => !c.startsWith "@"
+    if cs.isEmpty then none else some (cs.map unhex)
 
 def showRun (chunks : Option (List (List Byte))) : String :=
   match chunks with
